@@ -45,13 +45,13 @@ impl Slot {
 
     /// Generates a named slot like `$xyz`
     pub fn named(s: &str) -> Slot {
-        if let Ok(x) = s.parse::<u32>() {
+        if let Some(x) = canonical_u32(s) {
             return Slot(x * 4); // numeric
         }
 
         SLOT_TABLE.with_borrow_mut(|tab| {
             if s.starts_with("f") {
-                if let Ok(x) = s[1..].parse::<u32>() {
+                if let Some(x) = canonical_u32(&s[1..]) {
                     let out = x * 4 + 1;
                     if tab.fresh_idx <= out {
                         tab.fresh_idx = out + 4;
@@ -71,6 +71,13 @@ impl Slot {
             Slot(i) // new named
         })
     }
+}
+
+// Only the canonical decimal spelling of a number denotes that number.
+// Otherwise distinct names like `$7`, `$007` and `$+7` would denote the same slot.
+fn canonical_u32(s: &str) -> Option<u32> {
+    let x = s.parse::<u32>().ok()?;
+    (x.to_string() == s).then_some(x)
 }
 
 impl Display for Slot {
